@@ -20,7 +20,7 @@ fn leaf_node(i: usize, dup: bool) -> Node {
     match j % 3 {
         0 => Node::AndV(b(Node::Verify(b(Node::Check(b(Node::PkK(keys::key_xonly(j % 12))))))), b(Node::Older((j + 1) as u32))),
         1 => Node::AndV(b(Node::Verify(b(Node::Check(b(Node::PkK(keys::key_xonly((j + 5) % 12))))))), b(Node::After((j + 1) as u32))),
-        _ => Node::MultiA(1, vec![keys::key_xonly(j % 12), keys::key_xonly((j / 12 + 1 + j) % 12)]),
+        _ => Node::MultiA(1, vec![keys::key_xonly(j % 12), keys::key_xonly((j + 1 + (j / 12) % 11) % 12)]),
     }
 }
 
@@ -44,6 +44,13 @@ fn comb(depth: usize, left: bool, next: &mut usize, dup: bool) -> MTree {
         d += 1;
     }
     t
+}
+
+fn height(t: &MTree) -> usize {
+    match t {
+        MTree::Leaf(_) => 0,
+        MTree::Branch(a, b2) => 1 + height(a).max(height(b2)),
+    }
 }
 
 fn random_tree(src: &mut Src, n: usize, next: &mut usize, dup: bool) -> MTree {
@@ -173,12 +180,12 @@ fn check_tr(tr: &Tr<DK>, ik32: &[u8; 32], model: &bip341::Tree, how: &str) -> Re
 impl Check for C15 {
     fn id(&self) -> &'static str { "C15" }
     fn rule(&self) -> String {
-        "case = (tree shape in {random binary tree <= 24 leaves, left / right chain of depth 1..128, balanced depth <= 6, chain with a random subtree}, distinct or partly duplicated small leaf scripts, internal key) built through TapTree::leaf/combine and through text. Oracles: own BIP341 (tagged hashes, sorted branches, tweak): scriptPubKey / output key / parity / merkle_root; every spend_info leaf: control block bytes equal the own Merkle path, verify against the output key, length 33+32*depth, leaf hash; the (depth, script) DFS list equals the model through the constructor, parse, print->parse, identity translate_pk, Clone, spend_info (twice), TrSpendInfo::to_tap_tree; depth 129 must be rejected by both construction paths. Non-trivial = >= 3 leaves and not perfectly balanced, or depth >= 64; distinct by descriptor text.".into()
+        "case = (tree shape in {random binary tree <= 24 leaves, left / right chain of depth 1..128, balanced depth <= 6, chain with a random subtree, spine of total depth up to exactly 128 (all-left / all-right / mixed turns) with a random <= 6-leaf subtree at the bottom}, distinct or partly duplicated small leaf scripts, internal key) built through TapTree::leaf/combine and through text. Oracles: own BIP341 (tagged hashes, sorted branches, tweak): scriptPubKey / output key / parity / merkle_root; every spend_info leaf: control block bytes equal the own Merkle path, verify against the output key, length 33+32*depth, leaf hash; the (depth, script) DFS list equals the model through the constructor, parse, print->parse, identity translate_pk, Clone, spend_info (twice), TrSpendInfo::to_tap_tree; depth 129 must be rejected by both construction paths. Non-trivial = >= 3 leaves and not perfectly balanced, or depth >= 64; distinct by descriptor text.".into()
     }
     fn lanes(&self, tier: Tier) -> Vec<(&'static str, usize, usize)> {
         match tier {
-            Tier::Quick => vec![("trees", 3000, 100)],
-            Tier::Thorough => vec![("trees", 150_000, 120)],
+            Tier::Quick => vec![("trees", 3000, 300)],
+            Tier::Thorough => vec![("trees", 150_000, 300)],
         }
     }
     fn extra(&self, tier: Tier, st: &mut crate::runner::Stats, _known: &dyn Fn(&str) -> bool, _threads: usize) -> Result<serde_json::Value, Failure> {
@@ -226,8 +233,42 @@ impl Check for C15 {
     fn run_case(&self, _lane: &str, src: &mut Src, rep: &mut Report) -> Result<(), Failure> {
         let dup = src.chance(1, 4);
         let mut next = src.below(40);
-        let shape = src.below(5);
-        let t = match shape {
+        let t = gen_shape(src, &mut next, dup);
+        self.run_tree(src, rep, t)
+    }
+}
+
+/// Random tree shape (see the rule text); `next` numbers the leaf scripts.
+pub fn gen_shape(src: &mut Src, next_ref: &mut usize, dup: bool) -> MTree {
+    let mut next = *next_ref;
+    let shape = src.below(7);
+    let t = {
+        match shape {
+            5 | 6 => {
+                // a spine reaching (close to) the BIP341 maximum with a bushy bottom: several
+                // leaves / sibling pairs at depth 126..128; turns all-left, all-right or mixed
+                let n = src.range(1, 6);
+                let mut t = random_tree(src, n, &mut next, dup);
+                let h = height(&t);
+                let total = match src.below(4) {
+                    0 => 128,
+                    1 => 127,
+                    2 => src.range(120, 128),
+                    _ => src.range(41, 128),
+                };
+                let turns = src.below(3);
+                for _ in 0..total.saturating_sub(h) {
+                    let l = MTree::Leaf(leaf_node(next, dup));
+                    next += 1;
+                    let left = match turns {
+                        0 => true,
+                        1 => false,
+                        _ => src.bool(),
+                    };
+                    t = if left { MTree::Branch(Box::new(t), Box::new(l)) } else { MTree::Branch(Box::new(l), Box::new(t)) };
+                }
+                t
+            }
             0 | 1 => {
                 let n = src.range(1, 24);
                 random_tree(src, n, &mut next, dup)
@@ -250,7 +291,14 @@ impl Check for C15 {
                 }
                 t
             }
-        };
+        }
+    };
+    *next_ref = next;
+    t
+}
+
+impl C15 {
+    fn run_tree(&self, src: &mut Src, rep: &mut Report, t: MTree) -> Result<(), Failure> {
         let iki = src.below(12);
         let ik = if src.bool() { keys::key_xonly(iki) } else { keys::key_xpub(src.below(3), src.below(3) as u32, src.below(8) as u32, src.bool()) };
         let ikb = key_bytes(&ik, Ctx::Tap).map_err(|e| Failure { sig: "key".into(), msg: e })?;
@@ -260,7 +308,7 @@ impl Check for C15 {
         let text = md.print(src.bool());
         let model = t.to_model().map_err(|e| Failure { sig: "mirror-encode".into(), msg: e })?;
         rep.desc = format!("{} leaves, max depth {}: {}", model.n_leaves(), model.max_depth(), if text.len() > 300 { &text[..300] } else { &text });
-        rep.class(format!("shape={}", shape));
+        rep.class(format!("leaves-bucket={}", (model.n_leaves() / 16) * 16));
         rep.class(format!("depth-bucket={}", (model.max_depth() / 8) * 8));
         // ctor path
         let lt = lib_tree(&t).map_err(|e| Failure { sig: "tree-rejected".into(), msg: e })?;
